@@ -1,5 +1,8 @@
 import SkgVerif.Model.Fit
 import SkgVerif.Gen.Tables
+import SkgVerif.Gen.FitSigmaReal
+import Mathlib.Analysis.SpecialFunctions.Sqrt
+import Mathlib.Analysis.SpecialFunctions.Exp
 import Mathlib.Tactic
 /-!
 # C05 — automatic fits stay in bounds, are locally optimal and ignore empty lag classes
@@ -105,5 +108,32 @@ theorem C05_sigma_len_defect :
     let r := nanFilter3Defect [1, 2, 3] [some 5, none, some 7] (some [1, 1, 1])
     r.1.length = 2 ∧ r.2.2.map List.length = some 3 := by
   refine ⟨by decide +kernel, by decide +kernel⟩
+
+
+/-- the named fit weights (generated from the `fit_sigma` getter; `x = lag edge / largest lag edge`,
+so `0 < x ≤ 1`): every one is a positive uncertainty of at most 1 that grows with the lag — nearer
+lag classes are never given less weight than farther ones -/
+theorem C05_weights {x y : ℝ} (hx : 0 < x) (hxy : x ≤ y) (hy : y ≤ 1) :
+    (0 < Gen.sigma_linear x ∧ Gen.sigma_linear x ≤ Gen.sigma_linear y ∧ Gen.sigma_linear y ≤ 1) ∧
+    (0 < Gen.sigma_exp x ∧ Gen.sigma_exp x ≤ Gen.sigma_exp y ∧ Gen.sigma_exp y ≤ 1) ∧
+    (0 < Gen.sigma_sqrt x ∧ Gen.sigma_sqrt x ≤ Gen.sigma_sqrt y ∧ Gen.sigma_sqrt y ≤ 1) ∧
+    (0 < Gen.sigma_sq x ∧ Gen.sigma_sq x ≤ Gen.sigma_sq y ∧ Gen.sigma_sq y ≤ 1) := by
+  have hy0 : 0 < y := lt_of_lt_of_le hx hxy
+  refine ⟨⟨hx, hxy, hy⟩, ⟨?_, ?_, ?_⟩, ⟨?_, ?_, ?_⟩, ⟨?_, ?_, ?_⟩⟩
+  · unfold Gen.sigma_exp; positivity
+  · unfold Gen.sigma_exp
+    apply one_div_le_one_div_of_le (Real.exp_pos _)
+    exact Real.exp_le_exp.2 (one_div_le_one_div_of_le hx hxy)
+  · unfold Gen.sigma_exp
+    rw [div_le_one (Real.exp_pos _)]
+    exact Real.one_le_exp (by positivity)
+  · exact Real.sqrt_pos.2 hx
+  · exact Real.sqrt_le_sqrt hxy
+  · unfold Gen.sigma_sqrt
+    calc Real.sqrt y ≤ Real.sqrt 1 := Real.sqrt_le_sqrt hy
+      _ = 1 := Real.sqrt_one
+  · unfold Gen.sigma_sq; positivity
+  · unfold Gen.sigma_sq; exact pow_le_pow_left₀ hx.le hxy 2
+  · unfold Gen.sigma_sq; exact pow_le_one₀ hy0.le hy
 
 end Skg
